@@ -73,6 +73,123 @@ theorem baseReports_append (a b : List (Op E)) : ∀ d d' : Nat,
       | zero => simp [depthAfter] at h
       | succ k => simp only [depthAfter, baseReports, List.cons_append] at h ⊢; exact ih k d' h
 
+/-! ### the decidable bracket check and the grammar -/
+
+theorem depthAfter_shift (ops : List (Op E)) : ∀ d d' k : Nat,
+    depthAfter d ops = some d' → depthAfter (d + k) ops = some (d' + k) := by
+  induction ops with
+  | nil => intro d d' k h; simp [depthAfter] at h ⊢; omega
+  | cons op ops ih =>
+    intro d d' k h
+    cases op with
+    | setStrict x => simp only [depthAfter] at h ⊢; exact ih d d' k h
+    | report e => simp only [depthAfter] at h ⊢; exact ih d d' k h
+    | enter =>
+      simp only [depthAfter] at h ⊢
+      have := ih (d + 1) d' k h
+      rwa [Nat.add_right_comm] at this
+    | exit =>
+      cases d with
+      | zero => simp [depthAfter] at h
+      | succ n =>
+        simp only [depthAfter] at h
+        have := ih n d' k h
+        rw [Nat.add_right_comm]
+        simpa [depthAfter] using this
+    | abort =>
+      cases d with
+      | zero => simp [depthAfter] at h
+      | succ n =>
+        simp only [depthAfter] at h
+        have := ih n d' k h
+        rw [Nat.add_right_comm]
+        simpa [depthAfter] using this
+
+/-- the first return below the starting depth splits a history at the matching exit -/
+theorem first_return : ∀ (n : Nat) (ops : List (Op E)) (d d0 : Nat), ops.length ≤ n →
+    depthAfter (d + 1) ops = some d0 → d0 ≤ d →
+    ∃ body c rest, ops = body ++ c :: rest ∧ (c = .exit ∨ c = .abort) ∧
+      depthAfter 0 body = some 0 ∧ depthAfter d rest = some d0 := by
+  intro n
+  induction n with
+  | zero =>
+    intro ops d d0 hl h hle
+    have : ops = [] := List.eq_nil_of_length_eq_zero (by omega)
+    subst this
+    simp [depthAfter] at h
+    omega
+  | succ n ih =>
+    intro ops d d0 hl h hle
+    cases ops with
+    | nil => simp [depthAfter] at h; omega
+    | cons op ops =>
+      simp only [List.length_cons] at hl
+      cases op with
+      | setStrict x =>
+        simp only [depthAfter] at h
+        obtain ⟨body, c, rest, h1, h2, h3, h4⟩ := ih ops d d0 (by omega) h hle
+        exact ⟨.setStrict x :: body, c, rest, by simp [h1], h2, by simpa [depthAfter] using h3, h4⟩
+      | report e =>
+        simp only [depthAfter] at h
+        obtain ⟨body, c, rest, h1, h2, h3, h4⟩ := ih ops d d0 (by omega) h hle
+        exact ⟨.report e :: body, c, rest, by simp [h1], h2, by simpa [depthAfter] using h3, h4⟩
+      | exit =>
+        simp only [depthAfter] at h
+        exact ⟨[], .exit, ops, rfl, Or.inl rfl, rfl, h⟩
+      | abort =>
+        simp only [depthAfter] at h
+        exact ⟨[], .abort, ops, rfl, Or.inr rfl, rfl, h⟩
+      | enter =>
+        simp only [depthAfter] at h
+        obtain ⟨b1, c1, r1, h1, h2, h3, h4⟩ := ih ops (d + 1) d0 (by omega) h (by omega)
+        have hr1 : r1.length ≤ n := by
+          have := congrArg List.length h1
+          simp at this
+          omega
+        obtain ⟨b2, c2, r2, g1, g2, g3, g4⟩ := ih r1 d d0 hr1 h4 hle
+        refine ⟨.enter :: b1 ++ c1 :: b2, c2, r2, by simp [h1, g1], g2, ?_, g4⟩
+        simp only [depthAfter, List.cons_append]
+        rw [depthAfter_append b1 _ 1 1 (by simpa using depthAfter_shift b1 0 0 1 h3)]
+        rcases h2 with rfl | rfl <;> simpa [depthAfter] using g3
+
+theorem balanced_wellBracketed : ∀ (n : Nat) (ops : List (Op E)), ops.length ≤ n →
+    depthAfter 0 ops = some 0 → Spec.WellBracketed ops := by
+  intro n
+  induction n with
+  | zero =>
+    intro ops hl _
+    have : ops = [] := List.eq_nil_of_length_eq_zero (by omega)
+    subst this
+    exact .nil
+  | succ n ih =>
+    intro ops hl h
+    cases ops with
+    | nil => exact .nil
+    | cons op ops =>
+      simp only [List.length_cons] at hl
+      cases op with
+      | setStrict x =>
+        simp only [depthAfter] at h
+        exact .append [.setStrict x] ops (.setStrict x) (ih ops (by omega) h)
+      | report e =>
+        simp only [depthAfter] at h
+        exact .append [.report e] ops (.report e) (ih ops (by omega) h)
+      | exit => simp [depthAfter] at h
+      | abort => simp [depthAfter] at h
+      | enter =>
+        simp only [depthAfter] at h
+        obtain ⟨body, c, rest, h1, h2, h3, h4⟩ := first_return ops.length ops 0 0 (Nat.le_refl _) h (Nat.le_refl _)
+        have hlen := congrArg List.length h1
+        simp at hlen
+        have hb := ih body (by omega) h3
+        have hr := ih rest (by omega) h4
+        subst h1
+        rcases h2 with rfl | rfl
+        · have := Spec.WellBracketed.append _ _ (Spec.WellBracketed.context body hb) hr
+          simpa using this
+        · have := Spec.WellBracketed.append _ _ (Spec.WellBracketed.aborted body hb) hr
+          simpa using this
+
 /-! ### the stack discipline of (fixed) `capture()` -/
 
 /-- Frame lemma.  If `ops` never leaves a context below relative depth 0 (start depth `d`, end
